@@ -168,6 +168,33 @@ def check(prog, run):
         if not ok:
             run.report(r, "%s:_HealSchemaVisitor:unhealed(%s.%s)" % (HEAL, h, attr), healer.module.relpath,
                        "%s does not re-resolve .%s against the registry: a replaced type stays referenced through it" % (h, attr))
+        elif m is not None:
+            # path form: every execution that returns an element (not None) has assigned .attr from a _healed result
+            from .. import boolx
+            try:
+                _ev, exits = boolx.walk_under(m.node, lambda t: None)
+            except ValueError as e:
+                raise AnalysisError("C14.H1: %s" % e)
+            for kind, st, env in exits:
+                if kind != "return" or st.value is None or (isinstance(st.value, ast.Constant) and st.value.value is None):
+                    continue
+                healed_names = set()
+                done = False
+                for x in env.get(boolx.STMTS, ()):
+                    if isinstance(x, ast.Assign):
+                        from_heal = any(isinstance(y, ast.Attribute) and y.attr == "_healed" for y in ast.walk(x.value)) or \
+                            (isinstance(x.value, ast.Name) and x.value.id in healed_names)
+                        for t in x.targets:
+                            if isinstance(t, ast.Name) and from_heal:
+                                healed_names.add(t.id)
+                            if isinstance(t, ast.Attribute) and t.attr == attr and from_heal:
+                                done = True
+                if not done:
+                    cond = ", ".join("%s=%s" % kv for kv in sorted(env.items()) if kv[0] not in (boolx.CALLS, boolx.STMTS))
+                    run.report(r, "%s:_HealSchemaVisitor.%s:path-skips-healing(%s)" % (HEAL, h, attr), m.where(st),
+                               "%s can return the element without assigning .%s from the registry lookup (when %s): a type replaced "
+                               "under the same name stays referenced through it, so removed members remain reachable" % (h, attr, cond or "always"))
+                    break
     hd = healer.methods.get("_healed")
     shapes.require(hd is not None, "C14.H1: _healed not found")
     txt = ast.unparse(hd.node)
